@@ -984,9 +984,19 @@ def method_term(interp, base, name, args, kwargs):
                 else:
                     interp.call_raises['.' + name] = saved
         return t
+    if isinstance(tb, T) and name in PURE_SET_METHODS and (
+            tb.op == 'set' or tb.op == 'call' and tb.args[0] in (
+                'set', 'frozenset')):
+        # a set built in place: its algebra is pure
+        return t
     interp.effect('mcall', name, tb, targs)
     interp.fresh_n += 1
     return T('mret', tb, name, interp.fresh_n, *targs)
+
+
+PURE_SET_METHODS = ('intersection', 'union', 'difference', 'issubset',
+                    'issuperset', 'isdisjoint', 'symmetric_difference',
+                    'copy')
 
 
 def from_python(r):
